@@ -89,8 +89,14 @@ def ob_node_counts(ctx, res):
     else:
         hb = up(h.body).replace(" ", "")
         opt = [nm for nm, ty in h.params if "BBIWriteOptions" in ty]
-        if not opt or hb not in ("{%s.block_size.min(u16::MAXasu32)}" % opt[0], "{std::cmp::min(%s.block_size,u16::MAXasu32)}" % opt[0], "{%s.block_size.min(65535)}" % opt[0]):
-            res.fail("nodeCounts/rtree-helper", h, "rtree_block_size must be min(options.block_size, u16::MAX); got %s" % up(h.body))
+        forms_hi = ("{%s.block_size.min(u16::MAXasu32)}" % opt[0] if opt else "", "{std::cmp::min(%s.block_size,u16::MAXasu32)}" % opt[0] if opt else "", "{%s.block_size.min(65535)}" % opt[0] if opt else "")
+        forms_both = ("{%s.block_size.clamp(2,u16::MAXasu32)}" % opt[0] if opt else "", "{%s.block_size.max(2).min(u16::MAXasu32)}" % opt[0] if opt else "", "{%s.block_size.min(u16::MAXasu32).max(2)}" % opt[0] if opt else "")
+        if opt and hb in forms_hi:
+            res.fail("nodeCounts/rtree-lower-bound", h,
+                     "rtree_block_size has no lower bound: with block_size 1 every level of the index has as many nodes as the one below it, so get_rtreeindex never reaches a single root "
+                     "(it loops and allocates without bound); with 0, chunks(0) panics")
+        elif not opt or hb not in forms_both:
+            res.fail("nodeCounts/rtree-helper", h, "rtree_block_size must be options.block_size clamped to [2, u16::MAX]; got %s" % up(h.body))
         else:
             uses = {}
             for f in (gi, wt, wr):
@@ -98,7 +104,7 @@ def ob_node_counts(ctx, res):
             if uses["get_rtreeindex"] < 1 or uses["write_tree"] < 2 or uses["write_rtreeindex"] < 1:
                 res.fail("nodeCounts/rtree-uses", gi, "chunking, both full node sizes and the header must all use the capped block size; uses: %s" % uses)
             else:
-                res.ok(h, "R-tree: chunk size, full node sizes and header blockSize = min(block_size, 65535) (uses: %s)" % uses)
+                res.ok(h, "R-tree: chunk size, full node sizes and header blockSize = block_size clamped to [2, 65535] (uses: %s)" % uses)
     # the counts written: `X.len() as u16` where X is a chunk of the (capped) chunking, in write_tree
     cnt = [c for c in calls(wt.body, method="write_u16")]
     okc = [c for c in cnt if re.fullmatch(r"(sections|children)\.len\(\) as u16", up(strip(c["args"][0])))]
